@@ -483,12 +483,11 @@ def judge_files(sc, obs, memflat, memlex, st, tag="", history=True):
     if extra:
         return cm.viol("C09/file-set/unexpected-file/%s" % fmt, extra=extra, tag=tag)
     if history:
-        if obs.get("unclosed_at_return"):
-            return cm.viol("C09/file-set/left-open/%s" % fmt, files=obs["unclosed_at_return"])
         touched = sorted(set(p for (_, p, _, _) in obs.get("writelog", [])))
         other = [p for p in touched if not p.startswith(OUT + ".")
                  and not p.startswith("/sim/w/out2/")
-                 and not p.startswith("/sim/w/prior/")]
+                 and not p.startswith("/sim/w/prior/")
+                 and not p.startswith("/sim/tmp/")]
         if other:
             return cm.viol("C09/file-set/foreign-file-written/%s" % fmt, files=other)
     st.check("file_sets_judged")
